@@ -20,3 +20,39 @@ Proof.
   try rewrite E; reflexivity.
 Qed.
 Print Assumptions generated_prune_is_model.
+
+(** ** prune_plan and prune_source_literals *)
+From UJ Require Import Engine.Engine Base.Topo.
+Import ListNotations.
+
+Lemma fold_left_ext_fn {A B} (f h : A -> B -> A) (l : list B) (a : A) :
+  (forall x y, f x y = h x y) -> fold_left f l a = fold_left h l a.
+Proof. intros H. revert a. induction l as [|b l IH]; intros a; cbn [fold_left]; [reflexivity|]. rewrite H. apply IH. Qed.
+
+Theorem generated_prune_plan_is_model (p : pgraph) (required : list nat) (output : option nat) :
+  gen_prune_plan p required output = prune_plan p required output.
+Proof.
+  unfold gen_prune_plan, prune_plan, restrict, prune_roots. cbn zeta.
+  match goal with |- fold_left _ ?l1 _ = fold_left _ ?l2 _ => replace l1 with l2 end.
+  - apply fold_left_ext_fn. intros x y. apply generated_prune_is_model.
+  - apply filter_ext. intros u.
+    repeat match goal with |- context [andb ?a ?b] => destruct a; cbn [andb negb] end; try reflexivity;
+      repeat match goal with |- context [negb ?a] => destruct a; cbn [negb] end; reflexivity.
+Qed.
+Print Assumptions generated_prune_plan_is_model.
+
+Lemma filter_filter_and {A} (f h : A -> bool) (l : list A) : filter h (filter f l) = filter (fun x => f x && h x) l.
+Proof.
+  induction l as [|x l IH]; cbn [filter]; [reflexivity|].
+  destruct (f x); cbn [filter andb]; [destruct (h x)|]; rewrite IH; reflexivity.
+Qed.
+
+Theorem generated_prune_source_literals_is_model (p : pgraph) (pred : nat -> bool) :
+  gen_prune_source_literals p (Some pred) = prune_source_literals p pred /\
+  gen_prune_source_literals p None = prune_source_literals p (fun _ => true).
+Proof.
+  unfold gen_prune_source_literals, prune_source_literals, source_literals. cbn zeta. split.
+  - rewrite filter_filter_and. reflexivity.
+  - f_equal. apply filter_ext. intros n. rewrite andb_true_r. reflexivity.
+Qed.
+Print Assumptions generated_prune_source_literals_is_model.
